@@ -102,11 +102,20 @@ func (s *Scraper) ParseResponse(do func(rows []parser.Row) error) error {
 		}
 	}()
 
-	return parser.ParseStream(s.reader, time.Now().UnixNano()/1e6,
+	if err := parser.ParseStream(s.reader, time.Now().UnixNano()/1e6,
 		false,
 		do, func(str string) {
 			s.log.Print(str)
-		})
+		}); err != nil {
+		return err
+	}
+
+	// the stream parser takes some read errors ("connection reset by peer") for the end of the
+	// stream; a body that broke off is a failed scrape
+	if wr, ok := s.reader.(*wrappedReader); ok && wr.err != nil {
+		return wr.err
+	}
+	return nil
 }
 
 // StatisticsSeriesResult is the samples count in one scrape
